@@ -79,3 +79,15 @@ func GoStart(site string) {
 		h(site)
 	}
 }
+
+// PointHook, if non-nil, is called before every statement of the files instrumented with
+// statement-level scheduling points (tools/instr: stmtPointed). The accesses between two points run
+// atomically under the schedule explorer; everything finer is left to the free-running -race pass.
+var PointHook func(site string)
+
+// Point is inserted by tools/instr before each statement of statement-pointed files.
+func Point(site string) {
+	if h := PointHook; h != nil {
+		h(site)
+	}
+}
